@@ -27,16 +27,16 @@ Record rpc_st := {
   r_prog : N;
   r_progvers : N;
   r_proc : N;
-  r_scratch : N   (* message type, rpc version, flavors: accumulated, never read *)
+  r_mtype : N     (* message type: 0 = CALL; anything else is not answered *)
 }.
 
 Definition rpc_new (st : N) : rpc_st :=
   {| r_state := st; r_cur_len := 0; r_data_len := 0; r_xid := 0; r_prog := 0;
-     r_progvers := 0; r_proc := 0; r_scratch := 0 |}.
+     r_progvers := 0; r_proc := 0; r_mtype := 0 |}.
 
 Definition upd (s : rpc_st) (st cur dl : N) : rpc_st :=
   {| r_state := st; r_cur_len := cur; r_data_len := dl; r_xid := r_xid s; r_prog := r_prog s;
-     r_progvers := r_progvers s; r_proc := r_proc s; r_scratch := r_scratch s |}.
+     r_progvers := r_progvers s; r_proc := r_proc s; r_mtype := r_mtype s |}.
 
 (* read_u32: advance the 4-byte counter; returns (new state, new cur_len) *)
 Definition rd (s : rpc_st) (next : N) : N * N :=
@@ -50,21 +50,24 @@ Definition rpc_byte (s : rpc_st) (b : N) : rpc_st :=
   else if st =? R_XID then
     let '(n, c) := rd s R_MTYPE in
     {| r_state := n; r_cur_len := c; r_data_len := r_data_len s; r_xid := acc (r_xid s) b;
-       r_prog := r_prog s; r_progvers := r_progvers s; r_proc := r_proc s; r_scratch := r_scratch s |}
-  else if st =? R_MTYPE then let '(n, c) := rd s R_RPCVERS in upd s n c (r_data_len s)
+       r_prog := r_prog s; r_progvers := r_progvers s; r_proc := r_proc s; r_mtype := r_mtype s |}
+  else if st =? R_MTYPE then
+    let '(n, c) := rd s R_RPCVERS in
+    {| r_state := n; r_cur_len := c; r_data_len := r_data_len s; r_xid := r_xid s; r_prog := r_prog s;
+       r_progvers := r_progvers s; r_proc := r_proc s; r_mtype := acc (r_mtype s) b |}
   else if st =? R_RPCVERS then let '(n, c) := rd s R_PROG in upd s n c (r_data_len s)
   else if st =? R_PROG then
     let '(n, c) := rd s R_PROGVERS in
     {| r_state := n; r_cur_len := c; r_data_len := r_data_len s; r_xid := r_xid s;
-       r_prog := acc (r_prog s) b; r_progvers := r_progvers s; r_proc := r_proc s; r_scratch := r_scratch s |}
+       r_prog := acc (r_prog s) b; r_progvers := r_progvers s; r_proc := r_proc s; r_mtype := r_mtype s |}
   else if st =? R_PROGVERS then
     let '(n, c) := rd s R_PROC in
     {| r_state := n; r_cur_len := c; r_data_len := r_data_len s; r_xid := r_xid s;
-       r_prog := r_prog s; r_progvers := acc (r_progvers s) b; r_proc := r_proc s; r_scratch := r_scratch s |}
+       r_prog := r_prog s; r_progvers := acc (r_progvers s) b; r_proc := r_proc s; r_mtype := r_mtype s |}
   else if st =? R_PROC then
     let '(n, c) := rd s R_CFLAVOR in
     {| r_state := n; r_cur_len := c; r_data_len := r_data_len s; r_xid := r_xid s;
-       r_prog := r_prog s; r_progvers := r_progvers s; r_proc := acc (r_proc s) b; r_scratch := r_scratch s |}
+       r_prog := r_prog s; r_progvers := r_progvers s; r_proc := acc (r_proc s) b; r_mtype := r_mtype s |}
   else if st =? R_CFLAVOR then let '(n, c) := rd s R_CLEN in upd s n c (r_data_len s)
   else if st =? R_CLEN then
     let '(n, c) := rd s R_CREDS in
@@ -119,14 +122,19 @@ Definition rpc_build (s : rpc_st) (ip : ipaddr) (port : N) : bytes :=
    else if r_prog s =? 100000 then rpc_portmap s ip port
    else [0; 0; 0; 1]).
 
+(* a complete message is answered iff it is a CALL; over TCP the parser then starts afresh,
+   so that what follows on the flow is parsed as a new message *)
 Definition rpc_repl_tcp (s : rpc_st) (ip : ipaddr) (port : N) (data : bytes) : rpc_st * option bytes :=
   let s' := rpc_parse s data in
   if r_state s' =? R_END then
-    let r := rpc_build s' ip port in
-    let len := lenN r in
-    (s', Some ([128 + (len / 16777216) mod 256; (len / 65536) mod 256; (len / 256) mod 256; len mod 256] ++ r))
+    if r_mtype s' =? 0 then
+      let r := rpc_build s' ip port in
+      let len := lenN r in
+      (rpc_new R_FRAG,
+       Some ([128 + (len / 16777216) mod 256; (len / 65536) mod 256; (len / 256) mod 256; len mod 256] ++ r))
+    else (rpc_new R_FRAG, None)
   else (s', None).
 
 Definition rpc_repl_udp (ip : ipaddr) (port : N) (data : bytes) : option bytes :=
   let s' := rpc_parse (rpc_new R_XID) data in
-  if r_state s' =? R_END then Some (rpc_build s' ip port) else None.
+  if (r_state s' =? R_END) && (r_mtype s' =? 0) then Some (rpc_build s' ip port) else None.
